@@ -244,8 +244,9 @@ def monitor(work, module, cfg, what, stats, npreds, timeout=900):
 
 def drive(binary, test, job, work, tag, timeout):
     jp = work.path(tag + ".job.json")
+    env = job.pop("_env", None) if isinstance(job, dict) else None
     json.dump(job, open(jp, "w"))
-    rc, out, wall = v.run_harness(binary, test, jp, timeout=timeout)
+    rc, out, wall = v.run_harness(binary, test, jp, timeout=timeout, env_extra=env)
     if rc != 0:
         sys.stderr.write(out[-3000:])
         raise v.Inconclusive("driver %s failed (rc %d)" % (test, rc))
@@ -610,6 +611,8 @@ def mr_label(e):
         return "%s(%d)" % (ev, e["c"])
     if ev == "WriteOp":
         return "WriteOp(%d,%s)" % (e["c"], e["x"])
+    if ev == "URead":
+        return "URead(%d,%s)" % (e["c"], e["form"])
     return ev
 
 
@@ -724,13 +727,16 @@ def mr_consts(c):
     return ["Ufrags = " + tla_set(c["ufrags"]), "Fams = " + tla_set(c["fams"]), "Srcs = " + tla_set(c["srcs"]), "Kinds = " + tla_set(c["kinds"]),
             "Writers = " + tla_set(c["writers"]), "MaxConns = %d" % c["maxconns"], "MaxGrams = %d" % c.get("grams", 1),
             "MaxWrites = %d" % c.get("writes", 1), "MaxRemoves = %d" % c.get("removes", 1), "MaxCloses = %d" % c.get("closes", 1),
+            "MaxReads = %d" % c.get("reads", 0),
             "StaleWrites = %s" % ("TRUE" if c.get("stale") else "FALSE"), "MuxClose = %s" % ("TRUE" if c.get("muxclose") else "FALSE"),
             "SetupFirst = %s" % ("TRUE" if c.get("setupfirst") else "FALSE"), "MaxOps = %d" % c.get("ops", 0),
             "Defects = " + tla_set(c.get("defects", []))]
 
 
 def mr_job(c):
-    return {"mode": c["mode"], "ufrags": c["ufrags"], "fams": c["fams"], "keys": sorted({canon(x) for x in c["srcs"]}),
+    # backlog configurations run on one P: the mux's sync.Pool then hands a returned holder to the next borrower, which is what
+    # makes a holder that went back in a bad state matter
+    return {"_env": {"GOMAXPROCS": "1"} if c.get("reads") and c.get("onep") else None, "mode": c["mode"], "ufrags": c["ufrags"], "fams": c["fams"], "keys": sorted({canon(x) for x in c["srcs"]}),
             "writers": c["writers"], "maxconns": c["maxconns"]}
 
 
@@ -753,7 +759,7 @@ def mr_config(work, binary, verdict, stats, seed, key, c, timeout=900):
 
 
 # generous bounds for directed schedules (the trace spec's guards must not get in the way of a schedule suggestion)
-MR_FREE = {"grams": 8, "writes": 8, "removes": 8, "closes": 8, "stale": True, "muxclose": True, "setupfirst": False, "ops": 99, "defects": []}
+MR_FREE = {"grams": 8, "writes": 8, "removes": 8, "closes": 8, "reads": 8, "stale": True, "muxclose": True, "setupfirst": False, "ops": 99, "defects": []}
 
 
 def mr_cex(work, binary, verdict, stats, seed, key, c, invariant="GoneAfterRemove", suffix=()):
@@ -788,6 +794,17 @@ def mr_regress(work, binary, verdict, stats, seed):
         stats["regression_schedules"] = [x["id"] for x in lib]
 
 
+def mr_nearmiss(work, binary, verdict, stats, seed):
+    """Hand-written schedules around situations the edge covers reach only by luck (specs/udpmux/nearmiss.json)."""
+    lib = json.load(open(os.path.join(v.SPECS, FAMILY, "nearmiss.json")))["schedules"]
+    paths = [x["path"] for x in lib]
+    c = dict(MR_BASE, mode="conc", writers=["w1", "w2"], onep=True, **MR_FREE)
+    replay(work, binary, "mr", paths, mr_job(c), mr_consts(c), MR_CONC_PREDS, "MuxRoute_nearmiss", seed, stats, verdict,
+           cover_key="MuxRoute_nearmiss", nshards=1)
+    with LOCK:
+        stats["near_miss_schedules"] = [x["id"] for x in lib]
+
+
 MR_BASE = {"ufrags": ["u1", "u2"], "fams": ["4", "6"], "srcs": ["s1", "m1", "s6"], "kinds": ["data", "u1", "u2", "ux"], "writers": ["w1"],
            "maxconns": 3, "stale": True, "muxclose": True, "mode": "seq"}
 
@@ -799,6 +816,10 @@ def mr_run(work, binary, verdict, stats, tier, seed):
               "maxconns": 2, "grams": 1 if quick else 2, "writes": 2, "removes": 1, "closes": 0, "stale": True, "setupfirst": True}
     conc_b = {"mode": "conc", "ufrags": ["u1"], "fams": ["4"], "srcs": ["s1", "m1"] if not quick else ["s1"], "kinds": ["data", "u1"],
               "writers": ["w1", "w2"], "maxconns": 1, "grams": 2, "writes": 2, "removes": 1, "closes": 1, "stale": True, "setupfirst": True}
+    # the users read while the dispatcher works: a backlog, reads with a buffer that is too short, the holders going round the pool
+    conc_c = {"mode": "conc", "ufrags": ["u1", "u2"], "fams": ["4"], "srcs": ["s1"], "kinds": ["u1", "u2"], "writers": ["w1"],
+              "maxconns": 2, "grams": 3 if quick else 4, "writes": 0, "removes": 0, "closes": 0, "reads": 2 if quick else 3, "stale": False,
+              "setupfirst": True, "onep": True}
     cex_a = dict(MR_BASE, ops=5, defects=["a"])
     cex_b = dict(conc_a, grams=1, defects=["a"])
     cex_a2 = dict(conc_a, grams=1, stale=True, ufrags=["u1"], maxconns=1, defects=["a"])     # the stale-handle form, through the gates
@@ -814,6 +835,8 @@ def mr_run(work, binary, verdict, stats, tier, seed):
             lambda: mr_cex(work, binary, verdict, stats, seed, "MuxRoute_cex_stale_handle_gated", cex_a2, suffix=probe_conc),
             lambda: mr_cex(work, binary, verdict, stats, seed, "MuxRoute_cex_close_sibling", cex_c, "ListedUnlessGone", suffix=probe_seq),
             lambda: mr_cex(work, binary, verdict, stats, seed, "MuxRoute_cex_duplicate_registration", cex_d, suffix=probe_conc),
+            lambda: mr_config(work, binary, verdict, stats, seed, "MuxRoute_conc_backlog", conc_c, 1500),
+            lambda: mr_nearmiss(work, binary, verdict, stats, seed),
             lambda: mr_regress(work, binary, verdict, stats, seed)]
     parallel(jobs, 3)
 
